@@ -19,6 +19,7 @@ RULE = ("each case is a batch of 25 generated configurations (1-6 streams; names
         "PYTHONHASHSEED in {0, 1, 4242, random, random}; plus in-process refusal probes (r negative / float / str / "
         "None / beyond the list); non-trivial = configuration with >= 2 streams, r >= 1 and a non-empty name; distinct "
         "= canonical configuration hash")
+RULE += "; variant 'shipped': streams that served an earlier replication, were copied (pickle / deepcopy) and are updated as copies"
 ASSUMPTIONS = ["a seed-table entry means: seed of replication r is table[name][r] (documented: 'indexed on the replication number')",
                "the default fallback updater is SimpleStreamUpdater (documented); bool replication numbers are not judged"]
 
@@ -112,13 +113,13 @@ def run_case(case, ctx):
             if (r["ddict"].get("__error__") is None) != (err is None) and not (err is not None and not cfg.get("one_by_one")):
                 ctx.viol("depends-on-the-dict-type-of-the-seed-table", {**info, "base_error": err, "defaultdict_error": r["ddict"].get("__error__"), "hashseed": h})
                 return
-            for variant in ("perm", "hist", "reuse", "used", "late", "info", "ddict"):
+            for variant in ("perm", "hist", "reuse", "used", "late", "info", "ddict", "shipped"):
                 ctx.count("in_process_metamorphic_comparisons")
                 if err is None and r[variant].get("__error__") is None:
                     for n in names:
                         if r[variant][n] != r["base"][n]:
                             ctx.viol("depends-on-" + {"perm": "listing-order", "hist": "prior-stream-use",
-                                                      "reuse": "what-the-updater-served-before", "used": "prior-stream-use",
+                                                      "reuse": "what-the-updater-served-before", "used": "prior-stream-use", "shipped": "the-stream-having-been-copied",
                                                       "late": "when-the-seed-table-was-filled", "info": "another-seed-information-object",
                                                       "ddict": "the-dict-type-of-the-seed-table"}[variant],
                                      {**info, "stream": n, "base": r["base"][n], variant: r[variant][n], "hashseed": h})
@@ -172,6 +173,14 @@ def run_case(case, ctx):
                         elif r["base"][n] != r["fallback"][n]:
                             ctx.viol("unlisted-stream-not-served-by-fallback", {**info, "stream": n, "got": r["base"][n],
                                                                                  "fallback": r["fallback"][n]})
+                            return
+                # a stream updated alone gets its own seed whatever the lists of the streams that are not being updated look like
+                for n in names:
+                    if n in table and cfg["r"] < len(table[n]):
+                        ctx.count("table_semantics_checks")
+                        if r["alone"][n] is None or r["alone"][n][0] != table[n][cfg["r"]]:
+                            ctx.viol("depends-on-the-seed-lists-of-streams-not-being-updated", {**info, "stream": n, "got": r["alone"][n] and r["alone"][n][0],
+                                                                                              "want": table[n][cfg["r"]], "short_lists_of": short})
                             return
                 if err is not None and short and not cfg.get("one_by_one"):
                     pass    # which streams were already updated before the refusal depends on listing order: not judged
